@@ -3,5 +3,5 @@ CONSTANTS
  NBases = 8
  ZoneStep = 1
 ACTION_CONSTRAINT Emit
-INVARIANTS ReadsOwnText ZoneShift Unvouched
+INVARIANTS ReadsOwnText ZoneShift PatternReads Unvouched
 CHECK_DEADLOCK FALSE
